@@ -69,7 +69,7 @@ def main():
         q = queue.Queue()
         trees = []
         for i in range(jobs):
-            wt = "/tmp/wt/se%d" % i
+            wt = "/tmp/wt/%s%d" % (os.environ.get("SEED_WT_PREFIX", "se"), i)
             sh("git -C %s worktree remove --force %s" % (REPO, wt))
             rc, out = sh("git -C %s worktree add --detach %s HEAD" % (REPO, wt))
             assert rc == 0, out
